@@ -207,6 +207,13 @@ def run(tier: str, seed: int) -> int:
                  "traces: one recorded step per (stepper class, flags, D, N, order, linear coefficient list) validated by TLC")
     run_.assumptions = ["mpmath (60+ digits) evaluates the ring elements", "relative tolerance 1e-10 per element (cover), 2e5 ulps of the stage magnitude (traces)",
                         "the nonlinear-function call boundary exposes the stage values"]
+    # the composed machine (spec/Session.tla): multi-step API sessions generated by TLC -simulate, replayed call by call; this check
+    # reports the mismatches of the operations it owns (rk)
+    if tier != "quick":
+        from .. import session
+        import jax.numpy as _jnp
+        import exponax as _ex
+        session.run_for(run_, tier, seed, _ex, _jnp, ['rk'], PID)
     return run_.finish()
 
 
